@@ -30,6 +30,13 @@ CHECKS = {
             'range, integrality, monotonicity, absence of NaN/RuntimeWarning and independence of re/im are checked on every call.',
             'numpy mean/std are the estimator; pre-round values within 1e-9 of a tie are excluded and counted; squares must not overflow',
             'DESIGN.md 3/C09'),
+    'C08': ('exploration',
+            'model-based stateful testing of chunked channelisation against a from-first-principles FIR+DFT reference; enumerated compositions; linearity / Re-Im metamorphic relations',
+            'Generated feed histories over 1-3 filterbank objects (cached and un-cached calls, resets, real/int/complex input, '
+            'even and odd branch counts, four windows) are compared with an explicit windowed-sum + DFT-matrix reference of the '
+            'whole stream; all 2^(W-1) chunk compositions for W<=5 (quick) / 6 (thorough) windows are enumerated for six configurations.',
+            'chunks are whole multiples of num_taps*num_branches; windows of fewer than 4 coefficients (NaN from scipy for hann/blackman) excluded; 1e-10 relative tolerance',
+            'DESIGN.md 3/C08'),
 }
 
 ALL = [f'C{i:02d}' for i in range(1, 21)]
